@@ -134,8 +134,16 @@ func c01Gen() *rapid.Generator[c01Case] {
 		if rapid.IntRange(0, 19).Draw(t, "big") == 0 {
 			maxNodes = 120
 		}
-		f := genForest(forestParams{maxNodes: maxNodes, maxDepth: 12, names: names}).Draw(t, "forest")
+		var f model.Forest
+		if rapid.IntRange(0, 14).Draw(t, "deep") == 0 {
+			f = genDeepForest(names, false).Draw(t, "deepForest")
+		} else {
+			f = genForest(forestParams{maxNodes: maxNodes, maxDepth: 12, names: names}).Draw(t, "forest")
+		}
 		sp := genSpelling(f.HeadingOK()).Draw(t, "spelling")
+		if f.Depth() > 16 && sp.Unit > 3 {
+			sp.Unit = 1 + sp.Unit%3 // keep deep documents small
+		}
 		return c01Case{Forest: f, Sp: sp, Branch: genBranch().Draw(t, "branch"), NoIter: rapid.Bool().Draw(t, "noIter")}
 	})
 }
